@@ -296,7 +296,14 @@ def run(tier, seed):
                 "call. non-trivial = >= 2 targets and (>= 2 methods or two same-typed adjacent params)")
     n = 300 if tier == "quick" else 3000
     rng = core.rng_for(PROP, seed)
-    cases = [(hygiene_case("c07_%04d" % i, rng) if rng.random() < 0.1 else build_case("c07_%04d" % i, rng, dynamic=rng.random() < 0.5)) for i in range(n)]
+    def one(i):
+        if rng.random() < 0.1:
+            return hygiene_case("c07_%04d" % i, rng)
+        dyn = rng.random() < 0.5
+        # a fifth of the static cases: `?Send` with impl-block futures that really are not Send
+        ns = (not dyn) and rng.random() < 0.4
+        return build_case("c07_%04d" % i, rng, dynamic=dyn, force_async=ns, no_send=ns)
+    cases = [one(i) for i in range(n)]
     pin = Case("c07known_dyn_borrow", KNOWN_PIN_SRC, meta={"pin": "dyn_borrow_from_deps"})
     pin2 = Case("c07known_typed_receiver", KNOWN_PIN2_SRC, meta={"pin": "typed_receiver_with_target"})
     st = selftest.case("selftest_c07")
